@@ -263,6 +263,8 @@ func (s *Scope) Decorate(decorator interface{}, opts ...DecorateOption) error {
 			return newErrInvalidInput(
 				fmt.Sprintf("cannot decorate using function %v: %s already decorated", dn.dtype, k), nil)
 		}
+	}
+	for _, k := range keys {
 		s.decorators[k] = dn
 	}
 
